@@ -63,7 +63,7 @@ CONTRACTS[CO + "empty"] = dict(
     params={"self": "CompS"}, returns="None",
     ensures=[("no-tracks-none-selected", "len(self.tracks) == 0 and len(self.selected_tracks) == 0"),
              ("new-lists", "is_fresh(self.tracks) and is_fresh(self.selected_tracks)")],
-    modifies=["param:self"], havoc={"self.tracks": "[]", "self.selected_tracks": "[]"}, properties=["C14", "C17"], battery="comps")
+    modifies=["param:self"], havoc={"self.tracks": "[]", "self.selected_tracks": "[]"}, properties=["C14", "C16", "C17"], battery="comps")
 CONTRACTS[CO + "set_title"] = dict(
     params={"self": "CompS", "title": "str", "subtitle": "str"}, returns="None",
     ensures=[("stored", "self.title == title and self.subtitle == subtitle")], modifies=["param:self"],
@@ -125,7 +125,7 @@ CONTRACTS[CO + "__init__"] = dict(
     params={"self": "BlankComp"}, returns="None",
     ensures=[("no-tracks-none-selected", "len(self.tracks) == 0 and len(self.selected_tracks) == 0"),
              ("lists-of-its-own", "is_fresh(self.tracks) and is_fresh(self.selected_tracks)")],
-    modifies=["param:self"], properties=["C14", "C15", "C17"], battery="comp_blank")
+    modifies=["param:self"], properties=["C14", "C15", "C16", "C17"], battery="comp_blank")
 CONTRACTS[CO + "reset"] = dict(
     params={"self": "CompS"}, returns="None",
     ensures=[("no-tracks-none-selected", "len(self.tracks) == 0 and len(self.selected_tracks) == 0"),
